@@ -399,6 +399,48 @@ func (p *xPending) settle(hang time.Duration) string {
 	}
 }
 
+// xSettleAny waits until one of the calls returned ("done") or all of them are parked.
+func xSettleAny(cands []*xPending, hang time.Duration) (*xPending, string) {
+	if len(cands) == 1 {
+		return cands[0], cands[0].settle(hang)
+	}
+	deadline := time.Now().Add(hang)
+	confirmed := 0
+	for spin := 1; ; spin++ {
+		for _, p := range cands {
+			if p.out != nil {
+				return p, "done"
+			}
+			select {
+			case o := <-p.done:
+				p.out = &o
+				return p, "done"
+			default:
+			}
+		}
+		all := spin > 2
+		for _, p := range cands {
+			if !all {
+				break
+			}
+			if xParked(xGoState(p.gid.Load())) != "chan" {
+				all = false
+			}
+		}
+		if all {
+			if confirmed++; confirmed >= 2 {
+				return cands[0], "chan"
+			}
+		} else {
+			confirmed = 0
+		}
+		if time.Now().After(deadline) {
+			return cands[0], "hang"
+		}
+		time.Sleep(time.Duration(min(spin, 100)) * 20 * time.Microsecond)
+	}
+}
+
 // ---------------------------------------------------------------- replayer
 
 type xMismatch struct {
@@ -468,6 +510,13 @@ func xName(k int) string { return strconv.Itoa(k) + ".domain" }
 // small files are marked busy, other keys leave the unopened set, for the duration of one
 // step. target 0 or a new file: no restriction.
 func (r *xReplayer) steer(targets []int) func() {
+	r.db.fc.writers.Lock()
+	defer r.db.fc.writers.Unlock()
+	return r.steerLocked(targets)
+}
+
+// steerLocked is steer with fc.writers held exclusively by the caller.
+func (r *xReplayer) steerLocked(targets []int) func() {
 	fc := r.db.fc
 	var (
 		held    []controllerEntry
@@ -483,7 +532,6 @@ func (r *xReplayer) steer(targets []int) func() {
 		return func() {}
 	}
 	r.steerSrc = ""
-	fc.writers.Lock()
 	inOpen, inUnopened := false, false
 	for k := range want {
 		if _, ok := fc.writers.open[k]; ok {
@@ -514,7 +562,6 @@ func (r *xReplayer) steer(targets []int) func() {
 			delete(fc.writers.unopened, k)
 		}
 	}
-	fc.writers.Unlock()
 	if inOpen {
 		r.steerSrc = "idle"
 	} else if inUnopened {
@@ -728,24 +775,30 @@ func (r *xReplayer) woken(i int, st xStep, counterBefore int) *xMismatch {
 		if err != nil {
 			return &xMismatch{"drift", "harness", i, "", err.Error()}
 		}
-		var p *xPending
-		for j, q := range r.pend {
+		// blocked calls with the same arguments are interchangeable: whichever of them the
+		// release woke (the queue rotates when a woken call cannot proceed) is the one
+		var cands []*xPending
+		for _, q := range r.pend {
 			if q.id == id {
-				p = q
-				r.pend = append(r.pend[:j:j], r.pend[j+1:]...)
-				break
+				cands = append(cands, q)
 			}
 		}
-		if p == nil && r.lockCall != nil && r.lockCall.id == id {
-			p, r.lockCall = r.lockCall, nil
+		if len(cands) == 0 && r.lockCall != nil && r.lockCall.id == id {
+			cands, r.lockCall = []*xPending{r.lockCall}, nil
 		}
-		if p == nil {
+		if len(cands) == 0 {
 			return &xMismatch{"drift", "harness", i, "", fmt.Sprintf("no blocked call %v", id)}
 		}
 		r.cnt.Woken++
-		if s := p.settle(r.c.hang); s != "done" {
-			r.leaked = append(r.leaked, p)
+		p, s := xSettleAny(cands, r.c.hang)
+		if s != "done" {
 			return &xMismatch{"verdict", "blocked", i, fmt.Sprintf("blocked call %v returns after this release (something is evictable / reusable)", id), "still parked: " + s}
+		}
+		for j, q := range r.pend {
+			if q == p {
+				r.pend = append(r.pend[:j:j], r.pend[j+1:]...)
+				break
+			}
 		}
 		if p.out.panicked != nil || p.out.err != nil {
 			return &xMismatch{"verdict", "panic", i, "woken call returns nil", fmt.Sprint(p.out.panicked, p.out.err)}
@@ -891,7 +944,26 @@ func (r *xReplayer) step(i int, st xStep) *xMismatch {
 			return &xMismatch{"drift", "harness", i, "", "close of a free slot"}
 		}
 		delete(r.slots, st.S)
+		// A writer this release wakes may have to be steered away from the very handle that
+		// is being released, which can only be marked once it is idle: hold fc.writers across
+		// the release (Writer.Close does not take it; the woken acquireWriter queues on it).
+		wokenWriter := false
+		for _, d := range st.D {
+			if id, _, err := xTuple(d); err == nil && id.t == "w" {
+				wokenWriter = true
+			}
+		}
+		if wokenWriter {
+			r.db.fc.writers.Lock()
+		}
 		err, mm := r.guarded(i, "Writer.Close", sl.w.Close)
+		if wokenWriter {
+			if mm == nil {
+				undo1, undo2 := unsteer, r.steerLocked(r.targets(st))
+				unsteer = func() { undo2(); undo1() }
+			}
+			r.db.fc.writers.Unlock()
+		}
 		if mm != nil {
 			return mm
 		}
